@@ -677,6 +677,40 @@ fn c10_alloc_equiv() {
     std::mem::forget(b);
 }
 
+// ---- C11: a released tree node becomes a well-formed free page ------------------------------------------------------
+// `Pager::dealloc_page` appends the page to the free list and relies on the page itself arriving with `next == None`
+// (the tail of the list must end it) and with its own id; `Pager::allocate_page` later reads `next` of the head.
+// @obl harness=c11_btree_dealloc_header id=C11.released_node_is_a_free_page[BtreePage] tier=quick funcs="BtreePage::dealloc,MemBlock::cast,OverflowPageHeader::new" bounds="page 4096; EVERY BtreePageHeader (page id, right child, sibling links, counters symbolic: leaf or interior node in any state); data area of the released page probed at a symbolic position" stubs="std::fmt::format,std::mem::swap"
+#[kani::proof]
+#[kani::unwind(2)]
+#[kani::stub(std::fmt::format, c10_stub_format)]
+#[kani::stub(std::mem::swap, c10_swap)]
+fn c11_btree_dealloc_header() {
+    let id: PageId = kani::any();
+    let mut buf = C10Buf::zeroed();
+    let mut p = c10_page(&mut buf, id);
+    {
+        let h = p.metadata_mut();
+        h.right_child = kani::any();
+        h.next_sibling = kani::any();
+        h.previous_sibling = kani::any();
+        h.free_space_ptr = kani::any();
+        h.free_space = kani::any();
+        h.num_slots = kani::any();
+    }
+    let j: usize = kani::any();
+    kani::assume(j < C10_PS - OVERFLOW_HEADER_SIZE);
+    kani::cover!(true, "reach");
+    let o = p.dealloc();
+    let h = o.metadata();
+    assert!(h.page_number == id, "released_page_keeps_its_id");
+    assert!(h.next.is_none(), "released_page_has_no_successor");
+    assert!(o.next().is_none(), "released_page_has_no_successor");
+    assert!(o.size() == C10_PS, "released_page_keeps_its_size");
+    assert!(o.data()[j] == 0, "released_page_data_is_zeroed");
+    std::mem::forget(o);
+}
+
 // ---- C10.thresholds ---------------------------------------------------------------------------------------------------
 // @obl harness=c10_thresholds id=C10.thresholds tier=quick funcs="BtreeOps::overflow_threshold,BtreeOps::underflow_threshold,BtreeOps::max_payload_size_in,BtreeOps::ideal_max_payload_size,MemBlock::usable_space" bounds="page size = k * 4096 for k in 1..=16 (4096..=65536), min_cells in 3..=16" assume="documented configuration ranges (DBConfig clamps page size to [4096, 65536]; Btree::new requires min_keys >= 3)"
 #[kani::proof]
